@@ -219,9 +219,11 @@ def make_config(hsm: dict[str, Any], ksk: dict[str, Any], schemas: dict[str, Any
     return KSKMConfig.from_dict(d)
 
 
-def honest_request(zsks: list[tuple[str, K.TestKey, int]], layout: list[list[int]], *, start: datetime, interval: timedelta = timedelta(days=10), validity: timedelta = timedelta(days=21), req_id: str = "req-1", serial: int = 1, zsk_ttl: int = 3600, bundle_prefix: str = "bundle", sign: bool = True, algorithms: Any = None) -> Any:
+def honest_request(zsks: list[tuple[str, K.TestKey, int]], layout: list[list[int]], *, start: datetime, interval: timedelta = timedelta(days=10), validity: timedelta = timedelta(days=21), req_id: str = "req-1", serial: int = 1, zsk_ttl: int = 3600, bundle_prefix: str = "bundle", sign: bool = True, algorithms: Any = None, sub_us: list[tuple[int, int]] | None = None) -> Any:
     """A request whose i-th bundle holds the ZSKs `layout[i]` (indices into zsks), each with an honest
-    proof-of-possession signature by every key of the bundle."""
+    proof-of-possession signature by every key of the bundle.
+    `sub_us[i] = (a, b)`: bundle i's inception / expiration additionally carry a / b MICROSECONDS (sub-second components; the declared
+    policy durations stay whole)."""
     from kskm.common.data import AlgorithmDNSSEC, AlgorithmPolicyECDSA, AlgorithmPolicyRSA, SignaturePolicy
     from kskm.ksr.data import Request, RequestBundle
 
@@ -230,6 +232,8 @@ def honest_request(zsks: list[tuple[str, K.TestKey, int]], layout: list[list[int
     for i, idxs in enumerate(layout):
         inc = start + interval * i
         exp = inc + validity
+        if sub_us is not None:
+            inc, exp = inc + timedelta(microseconds=sub_us[i][0]), exp + timedelta(microseconds=sub_us[i][1])
         ks = [made[j] for j in idxs]
         sigs = K.sign_bundle_keys(ks, [(made[j], zsks[j][1]) for j in idxs], inc, exp, ttl=zsk_ttl) if sign else set()
         bundles.append(RequestBundle(id=f"{bundle_prefix}-{i + 1}", inception=inc, expiration=exp, keys=set(ks), signatures=sigs, signers=None))
